@@ -137,6 +137,16 @@ func sampleBoth(img *gozxing.BitMatrix, dx, dy int, to, from [8]float64, fn func
 		res, err = common.GridSampler_GetInstance().SampleGridWithTransform(img, dx, dy, t)
 	})
 	fn("SampleGridWithTransform", res, err, pm, site)
+	// the caller's transform object is an argument, not scratch space: a SECOND sampling with the
+	// SAME object (as a caller that samples several regions with one transform does) is judged by
+	// the same model
+	res, err = nil, nil
+	pm, site = mc.Guard(func() {
+		t := q2q(to, from)()
+		common.GridSampler_GetInstance().SampleGridWithTransform(img, dx, dy, t)
+		res, err = common.GridSampler_GetInstance().SampleGridWithTransform(img, dx, dy, t)
+	})
+	fn("SampleGridWithTransform (second sampling with the same transform object)", res, err, pm, site)
 }
 
 // ---------------------------------------------------------------- transform classes
